@@ -75,7 +75,7 @@ Definition d_scenario (s : sexp) : option scenario :=
 
 Definition init_world (sc : scenario) : world :=
   mkWorld 0 [] [] [] 1 (sc_cfg sc) sess_init false None [] [] [] [] None false [] (sc_insts sc) [] [] []
-          (sc_draws sc) [].
+          (sc_draws sc) [] [].
 
 Definition run_scenario (sc : scenario) : world * bool :=
   run (N.to_nat (sc_fuel sc)) (sc_events sc) (sc_end sc) (sc_rev sc) (init_world sc).
